@@ -97,6 +97,14 @@ type Case struct {
 	StrictLateMs int `json:"strict_late_ms,omitempty"`
 }
 
+// Attempts is the limit on delivery attempts in force: MaxAttempts, or the documented default of 10 when that is not positive.
+func (c Case) Attempts() int {
+	if c.MaxAttempts > 0 {
+		return c.MaxAttempts
+	}
+	return 10
+}
+
 // ID identifies a message: caller.call.index.
 type ID struct{ Caller, Call, Index int }
 
@@ -222,6 +230,7 @@ type Result struct {
 	Produces                    []ProduceSeen
 	Choice                      map[ID][2]any // topic, partition chosen by the balancer
 	OfferedN                    map[ID]int
+	OfferedBad                  map[ID]string // the list offered to the balancer for this message was not 0..n-1: what it was
 	Logs                        map[string][][]refcodec.Record // topic -> partition -> records
 	CloseErr                    error
 	CloseTook                   time.Duration
@@ -253,6 +262,12 @@ func (b *recordingBalancer) Balance(msg kafka.Message, partitions ...int) int {
 		b.mu.Lock()
 		b.res.Choice[id] = [2]any{msg.Topic, p}
 		b.res.OfferedN[id] = len(partitions)
+		for i, v := range partitions {
+			if v != i {
+				b.res.OfferedBad[id] = fmt.Sprintf("entry %d of the %d offered is %d", i, len(partitions), v)
+				break
+			}
+		}
 		b.mu.Unlock()
 	}
 	return p
@@ -297,7 +312,7 @@ func recordSize(r refcodec.Record) int64 {
 
 // Run executes the scenario.
 func Run(c Case) *Result {
-	res := &Result{Case: c, Choice: map[ID][2]any{}, OfferedN: map[ID]int{}, Logs: map[string][][]refcodec.Record{}}
+	res := &Result{Case: c, Choice: map[ID][2]any{}, OfferedN: map[ID]int{}, OfferedBad: map[ID]string{}, Logs: map[string][][]refcodec.Record{}}
 	stopProbe, probeDone := make(chan struct{}), make(chan time.Duration)
 	go func() {
 		var max time.Duration
@@ -546,7 +561,7 @@ func Run(c Case) *Result {
 			nb += len(call.Msgs)
 		}
 	}
-	limit := time.Duration(nb*c.MaxAttempts)*(wt+time.Duration(c.BackoffMaxMs)*time.Millisecond) + 10*time.Second
+	limit := time.Duration(nb*c.Attempts())*(wt+time.Duration(c.BackoffMaxMs)*time.Millisecond) + 10*time.Second
 	if limit > 90*time.Second {
 		limit = 90 * time.Second
 	}
